@@ -20,7 +20,9 @@ from lib import projects as PJ
 
 PROBLEMS = {
  'epytext': {'xref': 'See L{nonexistent_name_x} for more.', 'field': '@foobar: an unknown field', 'param': '@param nope: no such parameter', 'markup': 'An B{unclosed bold.'},
- 'restructuredtext': {'xref': 'See `nonexistent_name_x` for more.', 'field': ':foobar: an unknown field', 'param': ':param nope: no such parameter', 'markup': 'An **unclosed strong.'},
+ 'restructuredtext': {'xref': 'See `nonexistent_name_x` for more.', 'field': ':foobar: an unknown field', 'param': ':param nope: no such parameter', 'markup': 'An **unclosed strong.',
+                      # the field's text starts BELOW its marker line (directly, or after a blank line): the problem is the field's, at the marker
+                      'param_below': ':param nope:\n    no such parameter', 'field_blank_below': ':foobar:\n\n    an unknown field'},
  'google': {'param': 'Args:\n    nope: no such parameter', 'xref': 'See `nonexistent_name_x` for more.'},
  'numpy': {'param': 'Parameters\n----------\nnope: int\n    no such parameter', 'xref': 'See `nonexistent_name_x` for more.'},
 }
@@ -111,7 +113,7 @@ def warnings_for(fmt, prob, kind, layout, k, raw):
 def check_planted(fmt, prob, kind, layout, k, raw):
     if prob not in PROBLEMS[fmt]:
         return True
-    if prob == "param" and kind not in ("function", "method", "inherited"):
+    if prob in ("param", "param_below") and kind not in ("function", "method", "inherited"):
         return True
     if kind == "ivar_field" and (prob != "xref" or fmt not in ("epytext", "restructuredtext")):
         return True
@@ -151,23 +153,23 @@ def check_planted(fmt, prob, kind, layout, k, raw):
     code=["pydoctor.astutils.extract_docstring_linenum / Documentable.setDocstring", "pydoctor.model.Documentable.report", "pydoctor.epydoc2stan.reportErrors / Field.report / FieldHandler",
           "pydoctor.epydoc.markup.epytext (Token.startline, ParseError)", "pydoctor.epydoc.markup.restructuredtext (_EpydocReader.report, field line numbers)",
           "pydoctor.epydoc.markup._napoleon / pydoctor.napoleon (google, numpy)", "pydoctor.linker._EpydocLinker (unresolved cross-reference report)"],
-    bounds={"quick": "4 docformats x problem kinds (unresolvable cross-reference, unknown field, documented parameter that does not exist, markup error) x 7 object kinds (module, function, class, method, attribute, attribute documented by an @ivar field of its class's docstring, method showing a docstring inherited from its base class) x 5 docstring layouts (text on the opening line, below it, after 1 or 2 blank lines, after a whitespace-only line) x vertical offset 0/3 x raw string or not (1 344 modules)",
+    bounds={"quick": "4 docformats x problem kinds (unresolvable cross-reference, unknown field, documented parameter that does not exist, markup error; reST also: a field whose text starts below its marker line) x 7 object kinds (module, function, class, method, attribute, attribute documented by an @ivar field of its class's docstring, method showing a docstring inherited from its base class) x 5 docstring layouts (text on the opening line, below it, after 1 or 2 blank lines, after a whitespace-only line) x vertical offset 0/3 x raw string or not (1 344 modules)",
             "thorough": "offsets 0..3"},
     outside="docstring texts other than the generated one; several problems per docstring",
 )
 def h_planted_problems(prob: int, layout: int, k: int, raw: bool) -> bool:
     """
-    pre: 0 <= prob <= 3 and 0 <= layout <= 4 and 0 <= k <= 3
+    pre: 0 <= prob <= 5 and 0 <= layout <= 4 and 0 <= k <= 3
     pre: FULLK or k == 0 or k == 3
     post: _
     """
     fi, kd = PART if PART is not None else [0, 1]
-    prob = pick(prob, 0, 3)
+    prob = pick(prob, 0, 5)
     layout = pick(layout, 0, 4)
     k = pick(k, 0, 3)
     raw = pickb(raw)
     with NoTracing():
-        ok = check_planted(FMTS[fi], ["xref", "field", "param", "markup"][prob], KINDS[kd], layout, k, raw)
+        ok = check_planted(FMTS[fi], ["xref", "field", "param", "markup", "param_below", "field_blank_below"][prob], KINDS[kd], layout, k, raw)
     return done(ok)
 
 
